@@ -143,7 +143,13 @@ def run(ctx, build, verdict, ev):
     # ---- direct oracle on the implementation (failing-input search)
     extra = [(a, b) for a, b in special if a == a and b == b and 0.0 <= a <= 1.0 and 0.0 <= b <= 1.0]
     nviol = oracle(ctx, verdict, fl, grid, extra)
+    import floatlaws  # exact (tolerance-free) oracles: exactly the laws proved per norm in Properties/C04b.v
+
+    fx = floatlaws.norms(ctx, verdict, fl)
+    nviol += fx["exact_float_law_violations"]
     c = ev["coverage"]
+    c["exact_float_law_checks"] = fx["exact_float_law_checks"]
+    c["exact_float_laws"] = fx
     c["evaluations"] = len(index)
     distinct = {(n, vlib.fkey(a), vlib.fkey(b)) for n, _, a, b, r in index if r == r and 0 < r < 1}
     c["distinct_nontrivial"] = len(distinct)
